@@ -1,5 +1,6 @@
 """C05 — bound variables are invisible: no capture, no leakage, renaming-invariant."""
 from hypothesis import strategies as st
+from vf.core import robust_gen
 
 from vf.core import Decline, Prop, Violation, case_hash, innermost_funsor_frame
 from vf.gen import G, HypSource, Opts, SeedSource, exprs
@@ -84,7 +85,7 @@ def gen_capture_probe(src, opts):
 
 def cases(opts):
     base = exprs(opts, None)
-    probe = st.integers(0, 2**40).map(lambda s: gen_capture_probe(SeedSource(s), opts))
+    probe = st.integers(0, 2**40).map(robust_gen(lambda s: gen_capture_probe(SeedSource(s), opts)))
     return st.one_of(_cases(opts), _cases(opts), _cases(opts), probe)
 
 
@@ -95,7 +96,7 @@ def _cases(opts):
     def _selfs(draw):
         return gen_self_subst(HypSource(draw), opts)
 
-    seeded_self = st.integers(0, 2**40).map(lambda s: gen_self_subst(SeedSource(s), opts))
+    seeded_self = st.integers(0, 2**40).map(robust_gen(lambda s: gen_self_subst(SeedSource(s), opts)))
     return st.one_of(base, base, base, base, seeded_self, _selfs())
 
 
